@@ -153,5 +153,6 @@ mut('revert-F-C05', 'C05', AD, "if len(working_string) != len(section[0]):", "if
 mut('revert-F-C05-email', 'C05', DR + 'email_detection.py', "if len(working_string) != len(section[0]):", "if False:")
 mut('revert-F-C13', 'C13', PS, "                if rebuilt != original:", "                if False:")
 mut('revert-F-C15b', ['C15', 'C12'], CS, "                if self.pcfg.omen_exit:", "                if False:")
+mut('revert-F-C16b', ['C02'], RT, "if not any(omen_keyspace.values()):", "if not omen_keyspace.most_common(1):")
 json.dump(M, open(os.path.join(os.path.dirname(os.path.abspath(__file__)), 'mutants.json'), 'w'), indent=1)
 print(len(M), 'mutants')
